@@ -2,6 +2,7 @@ package main
 
 import (
 	"fmt"
+	"go/token"
 	"go/types"
 	"sort"
 	"strings"
@@ -178,30 +179,10 @@ func (a *An) wipeBeforeKill(rule string) {
 func (a *An) wipeHelpers(rule string) {
 	R := a.R
 	if f := a.MustFn("wipeBytes"); f != nil {
-		ok := false
-		for _, b := range f.Blocks {
-			for _, in := range b.Instrs {
-				if c, isC := in.(*ssa.Call); isC {
-					if bi, isB := c.Call.Value.(*ssa.Builtin); isB && bi.Name() == "copy" {
-						ok = a.C.Term(c.Call.Args[0]) == "$b" && a.C.Term(c.Call.Args[1]) == "zeroes(len($b))"
-					}
-				}
-			}
-		}
-		R.Check(ok, rule, "wipeBytes", "wipeBytes overwrites the whole buffer in place with zeroes", a.C.Pos(f.Pos()), "body differs")
+		R.Check(a.zeroesWhole(f, "$b", false), rule, "wipeBytes", "wipeBytes overwrites the whole buffer in place with zeroes", a.C.Pos(f.Pos()), "body differs")
 	}
 	if f := a.MustFn("wipeSecretKeyValue"); f != nil {
-		ok := false
-		for _, b := range f.Blocks {
-			for _, in := range b.Instrs {
-				if c, isC := in.(*ssa.Call); isC {
-					if bi, isB := c.Call.Value.(*ssa.Builtin); isB && bi.Name() == "copy" {
-						ok = a.C.Term(c.Call.Args[0]) == "$k" && a.C.Term(c.Call.Args[1]) == "zeroes(len($k))"
-					}
-				}
-			}
-		}
-		R.Check(ok, rule, "wipeSecretKeyValue", "overwrites the whole secret in place with zeroes", a.C.Pos(f.Pos()), "body differs")
+		R.Check(a.zeroesWhole(f, "$k", true), rule, "wipeSecretKeyValue", "overwrites the whole secret in place with zeroes", a.C.Pos(f.Pos()), "body differs")
 	}
 	if f := a.MustFn("wipeBigInt"); f != nil {
 		cs := a.CallsIn(f, "(*math/big.Int).SetBytes")
@@ -825,4 +806,48 @@ func (a *An) localDrawErased(rule string, f *ssa.Function, draw ssa.CallInstruct
 	}
 	a.R.Check(good, rule, a.C.Name(a.C.owner(f))+"|local-secret|"+a.C.Term(buf), "a secret drawn into a local buffer is zeroed on every path that follows the draw", a.C.InstrPos(draw),
 		"the return at "+bad+" is reachable after the draw without the erasure the function applies elsewhere: a step failing in between drops the secret unerased")
+}
+
+// zeroesWhole: the function overwrites the whole of its slice parameter (rendered p) with zeroes, in one of the forms
+// this is written in: copy(p, zeroes(len(p))); a loop over every index of p storing 0; or (delegate) handing p to
+// wipeBytes, which is judged by the same rule.
+func (a *An) zeroesWhole(f *ssa.Function, p string, delegate bool) bool {
+	for _, b := range f.Blocks {
+		for _, in := range b.Instrs {
+			switch x := in.(type) {
+			case *ssa.Call:
+				if bi, isB := x.Call.Value.(*ssa.Builtin); isB && bi.Name() == "copy" {
+					if a.C.Term(x.Call.Args[0]) == p && a.C.Term(x.Call.Args[1]) == "zeroes(len("+p+"))" {
+						return true
+					}
+				}
+				if sc := x.Call.StaticCallee(); delegate && sc != nil && a.C.Name(sc) == "wipeBytes" && len(x.Call.Args) == 1 {
+					if t := a.C.Term(x.Call.Args[0]); t == p || t == "[]byte("+p+")" {
+						return true
+					}
+				}
+			case *ssa.Store:
+				k, isK := x.Val.(*ssa.Const)
+				ia, isIA := x.Addr.(*ssa.IndexAddr)
+				if !isK || !isIA || k.Value == nil || k.Value.ExactString() != "0" || a.C.Term(ia.X) != p {
+					continue
+				}
+				idx := a.C.Term(ia.Index)
+				if idx != "phi((↺ + 1) / 0)" && idx != "(phi((↺ + 1) / -1) + 1)" {
+					continue
+				}
+				// the loop runs while the index is below len(p)
+				for _, bb := range f.Blocks {
+					if iff, ok := bb.Instrs[len(bb.Instrs)-1].(*ssa.If); ok {
+						if bo, isBO := iff.Cond.(*ssa.BinOp); isBO && bo.Op == token.LSS && a.C.Term(bo.Y) == "len("+p+")" {
+							if t := a.C.Term(bo.X); t == idx || t == "phi((↺ + 1) / 0)" || t == "(phi((↺ + 1) / -1) + 1)" {
+								return true
+							}
+						}
+					}
+				}
+			}
+		}
+	}
+	return false
 }
